@@ -68,6 +68,8 @@ pub fn ranges() -> Vec<R> {
         R::new(n(0), two(64) - 1),
         R::new(n(5), n(10)),
         R::new(n(-10), n(-5)),
+        R::new(n(-5), n(127)),
+        R::new(n(-128), n(-3)),
         R::new(n(0), n(0)),
         R::new(n(7), n(7)),
         R::new(n(0), two(128) - 1),
@@ -76,6 +78,9 @@ pub fn ranges() -> Vec<R> {
         R::new(-two(128) + 1, n(0)),
         R::new(n(-5), two(128) - 6),
         R::new(two(128) - 5, two(128) + 5),
+        R::new(two(128), two(128) + 100),
+        R::new(n(5), two(128) + 3),
+        R::new(-two(128), n(-1)),
         R::new(two(250), two(250) + 100),
         R::new(-two(250) - 100, -two(250)),
         R::new(n(0), &t - 2),
@@ -190,7 +195,9 @@ fn constrain_trim_funcs() -> Vec<Vec<Func>> {
             fs.push(Func {
                 name: format!("c{i}_{ki}"),
                 text: format!(
-                    "impl C{i}_{ki} of ConstrainHelper<{t}, {k}> {{ type LowT = BoundedInt<{}, {}>; type HighT = BoundedInt<{k}, {}>; }}\nfn c{i}_{ki}(a: {t}) -> (felt252, felt252) {{ match bounded_int::constrain::<{t}, {k}>(a) {{ Ok(l) => (0, l.into()), Err(h) => (1, h.into()) }} }}\n",
+                    "{}impl C{i}_{ki} of ConstrainHelper<{t}, {k}> {{ type LowT = BoundedInt<{}, {}>; type HighT = BoundedInt<{k}, {}>; }}\nfn c{i}_{ki}(a: {t}) -> (felt252, felt252) {{ match bounded_int::constrain::<{t}, {k}>(a) {{ Ok(l) => (0, l.into()), Err(h) => (1, h.into()) }} }}\n",
+                    // (the corelib already has the impls that split the signed integer types at 0)
+                    if k.is_zero() && t.starts_with('i') { "// " } else { "" },
                     r.lo,
                     k - 1,
                     r.hi
@@ -275,26 +282,74 @@ fn arith_funcs(tier: Tier) -> Vec<Vec<Func>> {
 /// instantiations are counted, not judged).
 fn compile_funcs<'a>(ctx: &mut Ctx, dbs: &mut Dbs, fs: &'a [Func]) -> Vec<(Compiled, Vec<&'a Func>)> {
     let cfg = Cfg::DEFAULT;
-    let build = |dbs: &mut Dbs, fs: &[&'a Func]| -> Option<Compiled> {
+    let build = |dbs: &mut Dbs, fs: &[&'a Func]| -> Result<Compiled, String> {
         let text: String = std::iter::once(PRELUDE.to_string()).chain(fs.iter().map(|f| f.text.clone())).collect();
         match guarded(|| dbs.compile(&cfg, &text)) {
-            Ok(Ok(p)) => guarded(|| make_runner(p, &cfg)).ok().and_then(|r| r.ok()),
-            Ok(Err(_)) => None,
-            Err(_) => {
+            Ok(Ok(p)) => match guarded(|| make_runner(p, &cfg)) {
+                Ok(Ok(c)) => Ok(c),
+                Ok(Err(e)) => Err(format!("sierra-to-casm: {e}")),
+                Err((loc, msg)) => Err(format!("panic at {loc}: {msg}")),
+            },
+            Ok(Err(e)) => Err(e),
+            Err((loc, msg)) => {
                 dbs.forget(&cfg);
-                None
+                Err(format!("panic at {loc}: {msg}"))
             }
         }
     };
     let all: Vec<&Func> = fs.iter().collect();
-    if let Some(c) = build(dbs, &all) {
+    if let Ok(c) = build(dbs, &all) {
         return vec![(c, all)];
     }
     let mut out = vec![];
     for f in fs {
         match build(dbs, &[f]) {
-            Some(c) => out.push((c, vec![f])),
-            None => ctx.count("bounded_instantiations_refused", 1),
+            Ok(c) => out.push((c, vec![f])),
+            Err(e) => {
+                // a refusal by the Sierra specialization is expected for some range pairs; anything else (a
+                // panic in a later stage) is C08's and C14's business - they compile the same sources
+                ctx.count(if e.contains("Failed to specialize") || e.contains("specialize") { "bounded_instantiations_refused" } else { "bounded_instantiations_failing_otherwise" }, 1);
+                ctx.note(format!("{} not compiled: {}", f.what, e.chars().take(160).collect::<String>()));
+            }
+        }
+    }
+    out
+}
+
+/// The hint-carrying instantiations (downcast, constrain) as one program each with explicit inputs, for the
+/// hint-deviation check: (name, source, input vectors). `stride`: every n-th instantiation.
+pub fn hinted_programs(tier: Tier, stride: usize, max_inputs: usize) -> Vec<(String, String, Vec<Vec<BigInt>>)> {
+    let mut out = vec![];
+    let mut k = 0usize;
+    for group in [downcast_funcs(tier), constrain_trim_funcs()] {
+        for fs in group {
+            for f in fs {
+                if f.what.contains("trim") {
+                    continue;
+                }
+                k += 1;
+                if k % stride != 0 {
+                    continue;
+                }
+                // spread the cap over the (sorted) input list so that both ends and the middle stay
+                let n = f.cases.len();
+                let step = n.div_ceil(max_inputs).max(1);
+                let inputs: Vec<Vec<BigInt>> = f.cases.iter().step_by(step).map(|(i, _)| i.clone()).collect();
+                out.push((format!("bounded:{}", f.what), format!("{PRELUDE}{}", f.text), inputs));
+            }
+        }
+    }
+    out
+}
+
+/// The sources of the lattice, one program per instantiation (for the checks that judge compilation).
+pub fn sources(tier: Tier) -> Vec<(String, String)> {
+    let mut out = vec![];
+    for group in [downcast_funcs(tier), constrain_trim_funcs(), arith_funcs(tier)] {
+        for fs in group {
+            for f in fs {
+                out.push((format!("bounded:{}", f.what), format!("{PRELUDE}{}", f.text)));
+            }
         }
     }
     out
